@@ -184,7 +184,6 @@ CLAIMED = {
 
 NOT_APPLICABLE = {
  "C17": "stream integrity across write/enable/flush/fault histories is a property of runtime values and orders; no structural clause that is both necessary and non-brittle beyond what C08/C10/C16/C18/C22 check",
- "C28": "URI parse/join round trip is string-grammar equivalence over all inputs (runtime values)",
  "C39": "equality with a reference parser of resolv.conf/hosts syntax over all file contents; no bounded-buffer idiom to anchor a guard rule",
 }
 
@@ -526,3 +525,16 @@ _more("C43", "Added (C43-reschedule): after every client-side completion the poo
 _more("C44", "Added: a bare --refcnt is only allowed under the failed 'last reference' test taken after the user callback.")
 _more("C45", "Added (C45-cursor): base->watcher_next is written only by the traversals and evwatch_free's repair.")
 _more("C46", "Added (C46-snapshot): the bound of the random start and the scan is the count handed to select()/poll(), not re-read after the wait.")
+
+
+CLAIMED.update({
+ "C28": {"level": "other",
+         "text": "Clauses of the URI round trip whose truth is in the code's own tables and decisions: V — scheme_ok, userinfo_ok, regname_ok and end_of_path (path, query, fragment) evaluated on every byte "
+                 "value and on every percent-escape shape accept exactly the RFC 3986 character classes; P — parse_port accepts exactly digit strings with value 0..65535 (long inputs do not wrap), "
+                 "evhttp_uri_set_port exactly -1..65535; J — evhttp_uri_join evaluated on 1848 combinations of component shapes either refuses or produces a string that the RFC 3986 Appendix B split "
+                 "takes apart into exactly the components that were set; S — every setter validates with the predicate the parser uses. Found and repaired: join wrote paths that parse back as an "
+                 "authority or a scheme; set_port accepted ports above 65535. Declined: that evhttp_uri_parse_with_flags splits every input string as RFC 3986 does (in-place parser on a copy of the "
+                 "input; evaluating it would decide a sample of inputs), the UNIX_SOCKET and NONCONFORMANT forms.",
+         "note": STD_NOTE + ORDER_NOTE,
+         "technique": "static analysis: exhaustive evaluation of the extracted validators over byte values (K6), decision table of evhttp_uri_join against the RFC 3986 split (K6), sibling agreement (K7)"},
+})
